@@ -236,8 +236,14 @@ class BaseComponent(object, metaclass=abc.ABCMeta):
             [task.state == BaseTaskState.NONE for task in self.targeted_task_list]
         )
 
+        # A task that already holds workers is about to be WORKING (its state is
+        # updated right after the allocation pass) and counts as working here.
         any_working_flag = any(
-            [task.state == BaseTaskState.WORKING for task in self.targeted_task_list]
+            [
+                task.state == BaseTaskState.WORKING
+                or len(task.allocated_worker_list) > 0
+                for task in self.targeted_task_list
+            ]
         )
 
         any_ready_flag = any(
